@@ -522,4 +522,228 @@ theorem run_wf (cfg : Config) (h14 : cfg.headerLen = 14) (hdepth : 1 ≤ cfg.env
     (by intro c cs _; have := encCmd_len_pos c; simp; omega)
   simpa using this
 
+/-! ### arbitrary bytes after a well-formed pipeline: the earlier commands are unaffected -/
+
+theorem collectGet_dead' (fuel : Nat) (buf rest more : Bytes) (c : Cmd) (h : buf ++ rest = encCmd c ++ more) :
+    collectGet 14 fuel buf = some ([], buf) := by
+  cases fuel with
+  | zero => rfl
+  | succ f =>
+    unfold collectGet
+    cases recogGet_dead buf rest more c h with
+    | inl hh => rw [hh]
+    | inr hh => rw [hh.1]
+
+theorem collectSet_dead' (fuel : Nat) (buf rest more : Bytes) (c : Cmd) (h : buf ++ rest = encCmd c ++ more) :
+    collectSet 14 fuel buf = some ([], buf) := by
+  cases fuel with
+  | zero => rfl
+  | succ f =>
+    unfold collectSet
+    cases recogSet_dead buf rest more c h with
+    | inl hh => rw [hh]
+    | inr hh => rw [hh.1]
+
+/-- outcome of the sequential loop on `stream cmds ++ junk`: either some commands are still
+    incomplete (then nothing but complete commands was executed) or all commands were executed
+    and whatever the junk caused comes after them -/
+def SeqJunk (cfg : Config) (cmds : List Cmd) (junk : Bytes) (fuel : Nat) (buf rest : Bytes) (inTx : Bool) : Prop :=
+  ∃ (done left : List Cmd), cmds = done ++ left ∧
+    ((left = [] ∧ ∃ tail r tx cr, seqLoop cfg fuel buf inTx = (execAll done ++ tail, r, tx, cr)) ∨
+     (∃ c cs buf' tx', left = c :: cs ∧ buf' ++ rest = stream left ++ junk ∧
+        buf'.length < (encCmd c).length ∧ seqLoop cfg fuel buf inTx = (execAll done, buf', tx', false)))
+
+theorem seqLoop_junk (cfg : Config) (h14 : cfg.headerLen = 14) (junk : Bytes) :
+    ∀ (cmds : List Cmd) (fuel : Nat) (buf rest : Bytes) (inTx : Bool),
+      buf ++ rest = stream cmds ++ junk → buf.length < fuel → Small (stream cmds ++ junk) →
+      (∀ c ∈ cmds, CmdOK cfg.env c) → SeqJunk cfg cmds junk fuel buf rest inTx := by
+  intro cmds
+  induction cmds with
+  | nil =>
+    intro fuel buf rest inTx _ _ _ _
+    refine ⟨[], [], rfl, Or.inl ⟨rfl, ?_⟩⟩
+    exact ⟨(seqLoop cfg fuel buf inTx).1, (seqLoop cfg fuel buf inTx).2.1, (seqLoop cfg fuel buf inTx).2.2.1,
+      (seqLoop cfg fuel buf inTx).2.2.2, by simp [execAll]⟩
+  | cons c cs ih =>
+    intro fuel buf rest inTx h hf hs hok
+    rw [stream_cons, List.append_assoc] at h hs
+    have hokc := hok c (by simp)
+    have hsc : Small (encCmd c) := hs.of_append
+    cases fuel with
+    | zero => omega
+    | succ f =>
+      by_cases hle : (encCmd c).length ≤ buf.length
+      · obtain ⟨t, hbt, hrt⟩ := append_split buf rest (encCmd c) (stream cs ++ junk) h hle
+        have hfp : fastPath cfg.headerLen inTx buf = .notFast := by
+          rw [h14]
+          cases fastPath_dead inTx buf rest (stream cs ++ junk) c h with
+          | inl hh => exact hh
+          | inr hh => omega
+        have hsb : Small (encCmd c ++ t) := by
+          unfold Small at *
+          have := congrArg List.length hrt
+          simp at hs this ⊢
+          omega
+        have hp := parse1_frame cfg.env c t hokc hsb
+        have hscs : Small (stream cs ++ junk) := by
+          unfold Small at *; simp at hs ⊢; omega
+        obtain ⟨done, left, e1, e2⟩ :=
+          ih f t rest (txAfter inTx (cmdFrame c)) hrt.symm
+            (by rw [hbt] at hf; simp at hf; have := encCmd_len_pos c; omega) hscs (fun x hx => hok x (by simp [hx]))
+        have hstep : seqLoop cfg (f + 1) buf inTx =
+            (Action.exec (cmdFrame c) .generic :: (seqLoop cfg f t (txAfter inTx (cmdFrame c))).1,
+             (seqLoop cfg f t (txAfter inTx (cmdFrame c))).2.1,
+             (seqLoop cfg f t (txAfter inTx (cmdFrame c))).2.2.1,
+             (seqLoop cfg f t (txAfter inTx (cmdFrame c))).2.2.2) := by
+          conv => lhs; unfold seqLoop
+          rw [hfp]
+          simp only []
+          rw [hbt, hp]
+          simp only [List.drop_append_of_le_length (Nat.le_refl _), List.drop_length, List.nil_append]
+        refine ⟨c :: done, left, by simp [e1], ?_⟩
+        cases e2 with
+        | inl e2 =>
+          obtain ⟨hl, tail, r, tx, cr, hseq⟩ := e2
+          left
+          refine ⟨hl, tail, r, tx, cr, ?_⟩
+          rw [hstep, hseq]
+          simp [execAll]
+        | inr e2 =>
+          obtain ⟨c', cs', buf', tx', hl, hb', hlt', hseq⟩ := e2
+          right
+          refine ⟨c', cs', buf', tx', hl, hb', hlt', ?_⟩
+          rw [hstep, hseq]
+          simp [execAll]
+      · have hlt : buf.length < (encCmd c).length := by omega
+        obtain ⟨ext, hext⟩ := append_split' buf rest (encCmd c) (stream cs ++ junk) h hlt
+        have hinc := parse1_partial cfg.env c buf ext hokc hext hlt hsc
+        refine ⟨[], c :: cs, rfl, Or.inr ⟨c, cs, buf, inTx, rfl, by rw [stream_cons, List.append_assoc]; exact h, hlt, ?_⟩⟩
+        unfold seqLoop
+        rw [h14]
+        cases fastPath_dead inTx buf rest (stream cs ++ junk) c h with
+        | inl hh =>
+          rw [hh]
+          simp only []
+          cases hout : (parse1 cfg.env buf).out with
+          | incomplete k => simp [execAll]
+          | ok v k => simp [hout, Outcome.isIncomplete] at hinc
+          | error k => simp [hout, Outcome.isIncomplete] at hinc
+          | crash k => simp [hout, Outcome.isIncomplete] at hinc
+        | inr hh =>
+          rw [hh.1]
+          simp [execAll]
+
+/-- reads only ever append actions -/
+theorem reads_append (cfg : Config) : ∀ (chunks : List Bytes) (st : St) (acts : List Action),
+    ∃ tail, (chunks.foldl (fun (acc : St × List Action) c =>
+      let (s', a) := onRead cfg acc.1 c; (s', acc.2 ++ a)) (st, acts)).2 = acts ++ tail := by
+  intro chunks
+  induction chunks with
+  | nil => intro st acts; exact ⟨[], by simp⟩
+  | cons c cs ih =>
+    intro st acts
+    simp only [List.foldl_cons]
+    obtain ⟨tail, ht⟩ := ih (onRead cfg st c).1 (acts ++ (onRead cfg st c).2)
+    exact ⟨(onRead cfg st c).2 ++ tail, by rw [ht]; simp⟩
+
+theorem reads_junk (cfg : Config) (h14 : cfg.headerLen = 14) (junk : Bytes) :
+    ∀ (chunks : List Bytes) (cmds : List Cmd) (b0 : Bytes) (tx : Bool) (acts : List Action),
+      b0 ++ chunks.flatten = stream cmds ++ junk → Small (stream cmds ++ junk) →
+      (stream cmds ++ junk).length ≤ cfg.maxBuffer → (∀ c ∈ cmds, CmdOK cfg.env c) →
+      (∀ c cs, cmds = c :: cs → b0.length < (encCmd c).length) →
+      ∃ tail, (chunks.foldl (fun (acc : St × List Action) c =>
+          let (s', a) := onRead cfg acc.1 c; (s', acc.2 ++ a)) (⟨b0, tx, false⟩, acts)).2
+        = acts ++ execAll cmds ++ tail := by
+  intro chunks
+  induction chunks with
+  | nil =>
+    intro cmds b0 tx acts h _ _ _ hb
+    simp at h
+    cases cmds with
+    | nil => exact ⟨[], by simp [execAll]⟩
+    | cons c cs =>
+      have := hb c cs rfl
+      rw [h, stream_cons] at this
+      simp at this
+      omega
+  | cons ch chunks ih =>
+    intro cmds b0 tx acts h hs hmax hok hb
+    cases cmds with
+    | nil =>
+      obtain ⟨tail, ht⟩ := reads_append cfg (ch :: chunks) ⟨b0, tx, false⟩ acts
+      exact ⟨tail, by rw [ht]; simp [execAll]⟩
+    | cons c cs =>
+      simp only [List.flatten_cons] at h
+      have h' : (b0 ++ ch) ++ chunks.flatten = encCmd c ++ (stream cs ++ junk) := by
+        rw [List.append_assoc, h, stream_cons, List.append_assoc]
+      have hlen : (b0 ++ ch).length ≤ (stream (c :: cs) ++ junk).length := by
+        rw [← h]; simp
+      have hmx : ¬ (b0.length + ch.length > cfg.maxBuffer) := by
+        simp only [List.length_append] at hlen hmax; omega
+      have hgate : batchGate cfg tx ((b0 ++ ch).length + 1) (b0 ++ ch) = some ([], b0 ++ ch) := by
+        unfold batchGate
+        rw [h14]
+        split
+        · rw [collectGet_dead' _ _ _ _ c h']
+          simp only []
+          split
+          · rw [collectSet_dead' _ _ _ _ c h']
+            simp [batchActs]
+          · simp [batchActs]
+        · rfl
+      have hread : onRead cfg ⟨b0, tx, false⟩ ch =
+          (⟨(seqLoop cfg ((b0 ++ ch).length + 1) (b0 ++ ch) tx).2.1,
+            (seqLoop cfg ((b0 ++ ch).length + 1) (b0 ++ ch) tx).2.2.1,
+            (seqLoop cfg ((b0 ++ ch).length + 1) (b0 ++ ch) tx).2.2.2⟩,
+           (seqLoop cfg ((b0 ++ ch).length + 1) (b0 ++ ch) tx).1) := by
+        unfold onRead
+        simp only [Bool.false_eq_true, if_false, hmx]
+        rw [hgate]
+        simp
+      obtain ⟨done, left, e1, e2⟩ := seqLoop_junk cfg h14 junk (c :: cs) ((b0 ++ ch).length + 1) (b0 ++ ch)
+        chunks.flatten tx (by rw [List.append_assoc]; exact h) (by omega) hs hok
+      simp only [List.foldl_cons, hread]
+      cases e2 with
+      | inl e2 =>
+        obtain ⟨hl, tail, r, tx2, cr, hseq⟩ := e2
+        rw [hseq]
+        simp only []
+        obtain ⟨tail2, ht2⟩ := reads_append cfg chunks ⟨r, tx2, cr⟩ (acts ++ (execAll done ++ tail))
+        subst hl
+        simp only [List.append_nil] at e1
+        exact ⟨tail ++ tail2, by rw [ht2, e1]; simp⟩
+      | inr e2 =>
+        obtain ⟨c', cs', buf', tx', hl, hb', hlt', hseq⟩ := e2
+        rw [hseq]
+        simp only []
+        have hsl : Small (stream left ++ junk) := by
+          have := stream_len_le done left
+          unfold Small at *
+          rw [← e1] at this
+          simp at hs ⊢
+          omega
+        have hml : (stream left ++ junk).length ≤ cfg.maxBuffer := by
+          have := stream_len_le done left
+          rw [← e1] at this
+          simp at hmax ⊢
+          omega
+        obtain ⟨tail, ht⟩ := ih left buf' tx' (acts ++ execAll done) hb' hsl hml
+          (fun x hx => hok x (by rw [e1]; simp [hx]))
+          (by intro c2 cs2 h2; rw [hl] at h2; cases h2; exact hlt')
+        exact ⟨tail, by rw [ht, e1]; simp [execAll]⟩
+
+/-- whatever follows a well-formed pipeline — garbage, truncated frames, frames that make the
+    recognisers or the decoder panic — and however everything is segmented: the commands of the
+    pipeline are executed exactly once, in order, before anything else happens -/
+theorem run_junk (cfg : Config) (h14 : cfg.headerLen = 14)
+    (cmds : List Cmd) (junk : Bytes) (segs : List Bytes) (h : segs.flatten = stream cmds ++ junk)
+    (hs : Small (stream cmds ++ junk)) (hmax : (stream cmds ++ junk).length ≤ cfg.maxBuffer)
+    (hok : ∀ c ∈ cmds, CmdOK cfg.env c) :
+    ∃ tail, run cfg segs = execAll cmds ++ tail := by
+  unfold run feedSegs St.init
+  obtain ⟨tail, ht⟩ := reads_junk cfg h14 junk (segs.flatMap (fun s => splitReads cfg.readSize s.length s)) cmds [] false []
+    (by simp [flatMap_splitReads_flatten, h]) hs hmax hok
+    (by intro c cs _; have := encCmd_len_pos c; simp; omega)
+  exact ⟨tail, by simpa using ht⟩
+
 end RedisVerif.Conn
